@@ -21,6 +21,7 @@ var stock = []val.V{
 	val.I(0), val.S("s"), val.F(1.5), val.T(1), val.D(5), val.B([]byte("x")),
 	val.N("/foo/x"), val.N("/foo/bar/x"), val.N("/foobar/x"), val.N("/a/x"), val.N("/bot/x"), val.N("/name/x"),
 	val.N("/number/x"), val.N("/any/x"), val.N("/q"), val.N("/foo"), val.N("/a"),
+	val.N("/number/n/x"), val.N("/string/s/x"), val.N("/bot/b/x"), val.N("/time/t/x"),
 	val.L(), val.M(), val.St(), val.P(val.I(0), val.S("s")), val.L(val.I(0)), val.L(val.N("/foo/x")),
 }
 
